@@ -84,11 +84,14 @@ def run(ctx):
     # the same walks on the built-in frames (cov-only walks; id k -> k-th name of the map, start = first name)
     walks = []
     covonly = [b for b in allb[0] if all(a[0] == "cov" for a in b["hist"])]
+    mixed = [b for b in allb[0] if any(a[0] == "state" for a in b["hist"]) and len(b["hist"]) >= 2]
     for mi, names in enumerate(BUILTIN_MAPS):
         sel = covonly if thorough else [b for b in covonly if len(b["hist"]) <= 2] + rnd.sample([b for b in covonly if len(b["hist"]) == 3], 25)
+        sel = sel + (mixed if thorough else rnd.sample(mixed, min(len(mixed), 60)))
         for b in sel:
-            tg = [t if isinstance(t, str) else names[t - 1] for _k, t in b["hist"]]
-            walks.append({"start": names[0], "targets": tg})
+            acts = [[k, t if isinstance(t, str) else names[t - 1]] for k, t in b["hist"]]
+            cf = b["cf"] if isinstance(b["cf"], str) else names[b["cf"] - 1]
+            walks.append({"start": names[0], "targets": [a[1] for a in acts], "acts": acts, "cf": cf})
     follow = [(m[0], t) for m in BUILTIN_MAPS for t in m[1:3]]
     per = max(1, len(walks) // 12)
     for i in range(0, len(walks), per):
